@@ -19,6 +19,7 @@ struct Profile {
 	bool faults_alloc = true, faults_elem = true;
 	int  max_arenas = 3;
 	int  max_ops = 40;
+	int  reindexed_pct = 0;  // percentage of runs in which reextent is also applied to the array re-indexed to base 1 (resize profiles only)
 };
 
 inline Profile profile_by_name(std::string const& full) {
@@ -31,7 +32,7 @@ inline Profile profile_by_name(std::string const& full) {
 	}
 	if(n == "value") { p.w_resize = 3; p.w_viewwrite = 4; p.w_ctor = 14; p.w_assign = 14; p.w_move = 8; p.w_swap = 5; p.fault_free_pct = 70; }
 	else if(n == "views") { p.w_viewwrite = 30; p.w_resize = 3; p.w_read = 6; p.fault_free_pct = 60; }
-	else if(n == "resize") { p.w_resize = 30; p.w_il = 8; p.w_viewwrite = 4; p.fault_free_pct = 70; }
+	else if(n == "resize") { p.w_resize = 30; p.w_il = 8; p.w_viewwrite = 4; p.fault_free_pct = 70; p.reindexed_pct = 2; }
 	else if(n == "life") { p.fault_free_pct = 100; }
 	else if(n == "fault") { p.fault_free_pct = 0; }
 	else if(n == "alloc") { p.w_alloc_forms = 14; p.w_move = 12; p.w_swap = 6; p.w_assign = 12; p.w_viewwrite = 2; p.w_resize = 5; p.max_arenas = 4; p.fault_free_pct = 75; p.faults_elem = false; }
@@ -52,6 +53,7 @@ struct Gen {
 	Model        M;
 	int          maxext = 3, narena = 1;
 	int          pfault = 0;  // per-op fault probability in percent
+	bool         reindex_run = false;  // this run applies some reextents to the array re-indexed to base 1
 	std::vector<int> fkinds;
 	i64          next_val = 1;
 
@@ -355,6 +357,26 @@ struct Gen {
 						if(plan_effect(M, T, o, e2)) { e = e2; return true; }
 					}
 				}
+				if(o.kind == O_CTOR_RANGE && rng.chance(1, 8)) {
+					// an empty range: a whole empty array of the same dimensionality, or a non-empty one sliced to nothing
+					int const src = alive_slot(D);
+					if(src >= 0 && src != o.a) {
+						o.db = D;
+						o.b  = src;
+						o.cb = Chain{};
+						MArr const& sa = M.at(D, src);
+						if(sa.count() > 0) {
+							Step st;
+							st.kind   = S_SLICED;
+							st.mode   = rng.below(3);
+							st.a = st.b = rng.below(sa.n[0] + 1);
+							o.cb.s[0] = st;
+							o.cb.n    = 1;
+						}
+						Effect e2;
+						if(plan_effect(M, T, o, e2)) { e = e2; return true; }
+					}
+				}
 				MView v;
 				bool  found = false;
 				if(o.kind != O_CTOR_VIEW && o.kind != O_CTOR_RANGE && o.kind != O_DECAY && rng.chance(1, 2) && M.at(D, o.a).count() > 0) {
@@ -395,6 +417,10 @@ struct Gen {
 				if(r == 0) for(int k = 0; k < D; ++k) o.x[k] = a.n[k];  // no-op
 				else if(r < 4) for(int k = 0; k < D; ++k) o.x[k] = std::max(0, std::min(6, a.n[k] + rng.range(-1, 1)));
 				if(o.kind == O_REEXTENT_FILL) o.v = rval();
+				if(o.kind != O_REEXTENT_MOVE && reindex_run && a.count() > 0 && rng.chance(1, 2)) {
+					o.var = 1;
+					for(int k = 0; k < D; ++k) o.x[k] = std::max(1, o.x[k]);
+				}
 				break;
 			}
 			case O_RESHAPE: {
@@ -549,6 +575,7 @@ struct Gen {
 		if(T.serialization) p.knobs.chunk_r = std::vector<int>{0, 1, 1, 2, 3, 7, 64}[static_cast<std::size_t>(rng.below(7))];
 		maxext        = P.deep ? std::vector<int>{2, 3, 4, 4, 5, 5, 6, 6}[static_cast<std::size_t>(rng.below(8))] : std::vector<int>{1, 2, 2, 3, 3, 3, 4, 4, 3, 4, 5, 6}[static_cast<std::size_t>(rng.below(12))];
 		narena        = T.always_equal ? 1 : rng.range(1, P.max_arenas);
+		reindex_run   = P.reindexed_pct > 0 && rng.below(100) < P.reindexed_pct;
 		bool const fault_free = rng.below(100) < P.fault_free_pct;
 		pfault        = fault_free ? 0 : std::vector<int>{5, 15, 40}[static_cast<std::size_t>(rng.below(3))];
 		fkinds.clear();
